@@ -331,21 +331,23 @@ class Kernel(object):
         return [p.pid for p in self.workers(tag, ('zombie',))]
 
 
+# wait-status macros, written with div/mod by constants (linear for the solver) instead of bit operations;
+# equal to glibc's definitions on every 16-bit status (lemma c09_wait_macros).
 def WIFSIGNALED(st):
-    low = st & 0x7f
-    return low != 0 and low != 0x7f
+    low = st % 128
+    return low != 0 and low != 127
 
 
 def WTERMSIG(st):
-    return st & 0x7f
+    return st % 128
 
 
 def WIFEXITED(st):
-    return (st & 0x7f) == 0
+    return st % 128 == 0
 
 
 def WEXITSTATUS(st):
-    return (st >> 8) & 0xff
+    return (st // 256) % 256
 
 
 # =============================================================================================
